@@ -353,7 +353,7 @@ func (fv *FuncVerifier) evalBuiltin(st *State, name string, e *ast.CallExpr) []V
 			fv.oblige(st, "bounds", text, "(and (<= 0 "+ln.T+") (<= "+ln.T+" "+cp.T+"))")
 			r := fv.allocRef(st)
 			h := sc.sliceHeap(u.Elem())
-			row := "((as const (Array Int " + sc.sortOf(u.Elem()) + ")) " + sc.zero(u.Elem()) + ")"
+			row := sc.constArray("(Array Int "+sc.sortOf(u.Elem())+")", sc.zero(u.Elem()))
 			st.heaps[h] = "(store " + fv.heapOf(st, h) + " " + r + " " + row + ")"
 			return []Val{{T: mkSlice(r, "0", ln.T, cp.T), Ty: t}}
 		case *types.Map:
@@ -911,6 +911,16 @@ func (fv *FuncVerifier) callContract(st *State, e *ast.CallExpr, fn *types.Func,
 				fv.assume(st, p)
 			}
 			st.heaps[h] = nh
+			// the modified objects still hold values of their type (lengths are non-negative, bytes are bytes, ...)
+			if t := sc.tkeys[h]; t != nil && strings.HasPrefix(h, "HP_") {
+				for _, m := range mods {
+					if m.heap == h {
+						for _, inv := range sc.typeInv("(select "+nh+" "+m.ref+")", t, 0) {
+							fv.assume(st, inv)
+						}
+					}
+				}
+			}
 		}
 		na := fv.fresh("alloc", "Int")
 		fv.assume(st, "(>= "+na+" "+st.alloc+")")
